@@ -34,6 +34,7 @@ MonInitVal ==
     term |-> {},                 \* accepted terminating requests in this call chain
     termLate |-> {},             \* ... that landed after the plan had already ended (post-plan window)
     failedPause |-> FALSE,       \* a pause / suspension was requested while not resumable
+    genCmd |-> "",               \* command of the message the plan yielded last (logged only when a preprocessor may drop messages)
     hardReq |-> FALSE,           \* a hard pause has been requested (request_pause() or Msg('pause')) and not yet taken effect
     failedPauseSelf |-> FALSE,   \* ... by the plan's own Msg('pause')
     failedPauseLate |-> FALSE,   \* ... and it landed after the plan had already ended (tail): either status is acceptable
@@ -285,8 +286,10 @@ UpdGen(mIn, e) ==
       m3x == IF inp = "throw" /\ val = "FailedStatus" THEN [m2 EXCEPT !.failPending = FALSE] ELSE m2
       \* C13: the value sent is the response to the plan's own message
       m3 == IF inp = "throw" /\ m3x.planMsg.cmd \in ImplicitCkptCmds THEN [m3x EXCEPT !.c04off = TRUE, !.replaying = FALSE, !.expect = <<>>] ELSE m3x
-      m4 == IF inp = "send" /\ ExpectedResp(m3.planMsg) # {} /\ val \notin ExpectedResp(m3.planMsg)
-            THEN Viol(m3, "C13:response-mismatch:" \o m3.planMsg.cmd) ELSE m3
+      m4x == IF inp = "send" /\ ExpectedResp(m3.planMsg) # {} /\ val \notin ExpectedResp(m3.planMsg)
+             THEN Viol(m3, "C13:response-mismatch:" \o m3.planMsg.cmd) ELSE m3
+      \* C13: a message that a preprocessor dropped (the engine never saw it: no `msg` event since the yield) is answered None
+      m4 == ViolIf(m4x, inp = "send" /\ m3.genYielded /\ m3.genCmd # "" /\ m3.planMsg.cmd = "?" /\ val # "None", "C13:response-mismatch:dropped")
       \* C14: a duplicate open_run must be rejected at that yield
       \* (answered with an exception: IllegalMessageSequence, or whatever interrupted the engine before it got to the message)
       m5 == IF m4.dupOpen THEN ViolIf([m4 EXCEPT !.dupOpen = FALSE], inp # "throw", "C14:duplicate-open-accepted") ELSE m4
@@ -308,7 +311,7 @@ UpdGen(mIn, e) ==
       m8 == ViolIf(m8b, inp = "send" /\ m8b.susEff # {} /\ m8b.term = {} /\ ~m8b.failedPause
                         /\ (m8b.planMsg.cmd = "" \/ m8b.suspEver),
                    IF m8b.planMsg.cmd = "" THEN "C31:plan-started-while-suspender-tripped" ELSE "C11:plan-ran-while-suspender-tripped")
-      m9 == IF react = "yield" THEN [m8 EXCEPT !.genYielded = TRUE, !.planMsg = [cmd |-> "?", obj |-> "", run |-> ""]]
+      m9 == IF react = "yield" THEN [m8 EXCEPT !.genYielded = TRUE, !.planMsg = [cmd |-> "?", obj |-> "", run |-> ""], !.genCmd = e[5]]
             ELSE IF react = "return" THEN [m8 EXCEPT !.planDone = TRUE]
             ELSE [m8 EXCEPT !.planDone = TRUE, !.planRaised = react, !.faulty = (@ \/ react = "raise:PlanErr")]
   IN m9
@@ -380,7 +383,9 @@ UpdRet(m, e, s2) ==
   LET op == e[2] outcome == e[3] st == e[4] resumable == e[7]
       allStopped == \A o \in 1..m.nruns : m.runs[o].stopped = 1
       terminated == m.term # {} \/ m.termLate # {} \/ m.failedPause
-      mm0 == ViolIf(m, ~m.faulty /\ outcome \notin {"ok", "interrupted", m.expOutcome} /\ outcome # "exc:TransitionError", "C03:unexpected-error")
+      \* (C03 is about executions that were only paused/resumed or suspended/released: not about aborted / stopped / halted ones)
+      mm0 == ViolIf(m, ~m.faulty /\ m.term = {} /\ m.termLate = {} /\ outcome \notin {"ok", "interrupted", m.expOutcome} /\ outcome # "exc:TransitionError",
+                    "C03:unexpected-error")
       \* C03: an execution that was only paused/resumed or suspended/released records the same data as the uninterrupted one
       clean == m.term = {} /\ m.termLate = {} /\ ~m.failedPause /\ ~m.faulty /\ outcome = "ok" /\ st = "idle" /\ m.expData # {} /\ m.expOutcome = "ok"
       mm1 == IF clean THEN ViolIf(ViolIf(mm0, \E x \in m.expData : \A y \in m.gotData : <<y[1], y[2], y[3]>> # <<x[1], x[2], x[3]>>, "C03:data-point-lost"),
